@@ -196,6 +196,13 @@ class Summaries:
                     if pl['l'] in der and '*' in pl['p']:
                         sites.append({'bb': b, 'idx': 'term', 'root': der[pl['l']], 'line': t['line'],
                                       'what': 'drop-in-place %s' % place_str(body, pl)})
+                    elif pl['l'] in der and not pl['p'] and pl['l'] not in roots:
+                        # RAII guard holding the borrow: does its Drop impl write through it?
+                        dfn = self.drop_impl(t.get('ty') or body.local_ty(pl['l']))
+                        if dfn is not None and self.mutates(dfn) :
+                            sites.append({'bb': b, 'idx': 'term', 'root': der[pl['l']], 'line': t['line'],
+                                          'what': 'drop of %s (its Drop impl writes through the borrow)' % (body.local_name(pl['l']) or core.short(t.get('ty') or '?')),
+                                          'callee': dfn, 'kind': 'drop'})
                 if t['k'] != 'call':
                     continue
                 passed = []
@@ -221,6 +228,14 @@ class Summaries:
             seeds.update(extra)
         self._mut_sites[key] = sites
         return sites
+
+    def drop_impl(self, ty):
+        """path of `<T as Drop>::drop` for a local type `T<..>` defined in this crate, if any"""
+        base = re.sub(r'<.*$', '', ty)
+        for p, f in self.facts.fns.items():
+            if f.impl_trait == 'std::ops::Drop' and f.impl_self_adt == base:
+                return p
+        return None
 
     def mutates(self, key):
         """set of 0-based param positions written through"""
